@@ -42,12 +42,12 @@ def validate_frame_tables(ctx, rid):
                     return r"^return Result::Ok\(frame\)$"
                 return r"^return Result::Err\(ErrorCode::%s\)$" % o
             if isinstance(out, dict):
-                rows.append({"name": "%s/first" % kind, "atoms": [r"^Frame::kind\(&frame\) is %s$" % kind, r"^!H3::set_first_frame\("],
+                rows.append({"name": "%s/first" % kind, "atoms": [r"^Frame::kind\(frame\) is %s$" % kind, r"^!H3::set_first_frame\("],
                              "leaf": leaf_for(out["first"])})
-                rows.append({"name": "%s/later" % kind, "atoms": [r"^Frame::kind\(&frame\) is %s$" % kind, r"^H3::set_first_frame\("],
+                rows.append({"name": "%s/later" % kind, "atoms": [r"^Frame::kind\(frame\) is %s$" % kind, r"^H3::set_first_frame\("],
                              "leaf": leaf_for(out["later"])})
             else:
-                rows.append({"name": kind, "atoms": [r"^Frame::kind\(&frame\) is %s$" % kind], "leaf": leaf_for(out)})
+                rows.append({"name": kind, "atoms": [r"^Frame::kind\(frame\) is %s$" % kind], "leaf": leaf_for(out)})
         paths = walk(fn)
         match_table(ctx, rid, fn, paths, rows, "validate_frame[%s]" % role)
         ctx.sample({"rule": rid, "fn": fn.path, "table": [[list(path_sig(p)[0]), path_sig(p)[1]] for p in paths]})
@@ -55,9 +55,9 @@ def validate_frame_tables(ctx, rid):
     # the 'first frame' flag: set_first_frame returns the previous value and sets true
     f = ctx.A.fn("wtransport_proto::stream::types::H3::set_first_frame")
     ps = nonpanic(walk(f))
-    okk = len(ps) == 1 and re.match(r"^return replace\(&\*?self\.first_frame_done,1\)$", leaf_str(ps[0].leaf)) is not None
+    okk = len(ps) == 1 and re.match(r"^return replace\(self\.first_frame_done,1\)$", leaf_str(ps[0].leaf)) is not None
     ctx.check(rid, "H3::set_first_frame", okk,
-              "H3::set_first_frame is no longer `mem::replace(&mut self.first_frame_done, true)`: %s" % [leaf_str(p.leaf) for p in ps],
+              "H3::set_first_frame is no longer `mem::replace(mut self.first_frame_done, true)`: %s" % [leaf_str(p.leaf) for p in ps],
               where(f))
     ctx.floor(rid, "validate_frame tables", n, 4)
 
@@ -66,33 +66,33 @@ def validate_frame_tables(ctx, rid):
 
 def _rf_rows_sync(selfref):
     return [
-        {"name": "Ok(Some)->validated", "atoms": [r"^Frame::read\(&\*bytes_reader\) is Ok$", r"^\(Frame::read\(&\*bytes_reader\) as Ok\)\.0 is Some$", r"validate_frame\(.*\) ok$"],
-         "leaf": r"^return Result::Ok\(Option::Some\(ok\(<impl .*?>::validate_frame\(&\*self,\(\(Frame::read\(&\*bytes_reader\) as Ok\)\.0 as Some\)\.0\)\)\)\)$"},
+        {"name": "Ok(Some)->validated", "atoms": [r"^Frame::read\(bytes_reader\) ok$", r"^ok\(Frame::read\(bytes_reader\)\) ok$", r"validate_frame\(.*\) ok$"],
+         "leaf": r"^return Result::Ok\(Option::Some\(ok\(<impl .*?>::validate_frame\(self,ok\(ok\(Frame::read\(bytes_reader\)\)\)\)\)\)\)$"},
         {"name": "Ok(Some)->validate error", "atoms": [r"validate_frame\(.*\) fails$"],
-         "leaf": r"^return Err\(from\(err\(<impl .*?>::validate_frame\(&\*self,\(\(Frame::read\(&\*bytes_reader\) as Ok\)\.0 as Some\)\.0\)\)\)\)$"},
-        {"name": "Ok(None)", "atoms": [r"^\(Frame::read\(&\*bytes_reader\) as Ok\)\.0 is None$"], "leaf": r"^return Result::Ok\(Option::None\)$"},
-        {"name": "UnknownFrame->skip", "atoms": [r"^\(Frame::read\(&\*bytes_reader\) as Err\)\.0 is UnknownFrame$"], "leaf": r"^continue$"},
-        {"name": "InvalidSessionId->Id", "atoms": [r"^\(Frame::read\(&\*bytes_reader\) as Err\)\.0 is InvalidSessionId$"],
+         "leaf": r"^return Result::Err\(err\(<impl .*?>::validate_frame\(self,ok\(ok\(Frame::read\(bytes_reader\)\)\)\)\)\)$"},
+        {"name": "Ok(None)", "atoms": [r"^ok\(Frame::read\(bytes_reader\)\) fails$"], "leaf": r"^return Result::Ok\(Option::None\)$"},
+        {"name": "UnknownFrame->skip", "atoms": [r"^err\(Frame::read\(bytes_reader\)\) is UnknownFrame$"], "leaf": r"^continue$"},
+        {"name": "InvalidSessionId->Id", "atoms": [r"^err\(Frame::read\(bytes_reader\)\) is InvalidSessionId$"],
          "leaf": r"^return Result::Err\(ErrorCode::%s\)$" % SPEC["read_frame_map"]["InvalidSessionId"]},
-        {"name": "PayloadTooBig->ExcessiveLoad", "atoms": [r"^\(Frame::read\(&\*bytes_reader\) as Err\)\.0 is PayloadTooBig$"],
+        {"name": "PayloadTooBig->ExcessiveLoad", "atoms": [r"^err\(Frame::read\(bytes_reader\)\) is PayloadTooBig$"],
          "leaf": r"^return Result::Err\(ErrorCode::%s\)$" % SPEC["read_frame_map"]["PayloadTooBig"]},
     ]
 
 
 def _rf_rows_async():
-    R = r"await\(Frame::read_async\(&\*reader\)\)"
+    R = r"await\(Frame::read_async\(reader\)\)"
     return [
-        {"name": "Ok->validated", "atoms": [r"^%s is Ok$" % R],
-         "leaf": r"^return Result::map_err\(<impl .*?>::validate_frame\(&\*self,\(%s as Ok\)\.0\),fn:IoReadError::H3\)$" % R},
-        {"name": "UnknownFrame->skip", "atoms": [r"^\(\(%s as Err\)\.0 as Parse\)\.0 is UnknownFrame$" % R], "leaf": r"^continue$"},
-        {"name": "InvalidSessionId->Id", "atoms": [r"^\(\(%s as Err\)\.0 as Parse\)\.0 is InvalidSessionId$" % R],
+        {"name": "Ok->validated", "atoms": [r"^%s ok$" % R],
+         "leaf": r"^return Result::map_err\(<impl .*?>::validate_frame\(self,ok\(%s\)\),fn:IoReadError::H3\)$" % R},
+        {"name": "UnknownFrame->skip", "atoms": [r"^\(err\(%s\) as Parse\)\.0 is UnknownFrame$" % R], "leaf": r"^continue$"},
+        {"name": "InvalidSessionId->Id", "atoms": [r"^\(err\(%s\) as Parse\)\.0 is InvalidSessionId$" % R],
          "leaf": r"^return Result::Err\(stream::IoReadError::H3\(ErrorCode::%s\)\)$" % SPEC["read_frame_map"]["InvalidSessionId"]},
-        {"name": "PayloadTooBig->ExcessiveLoad", "atoms": [r"^\(\(%s as Err\)\.0 as Parse\)\.0 is PayloadTooBig$" % R],
+        {"name": "PayloadTooBig->ExcessiveLoad", "atoms": [r"^\(err\(%s\) as Parse\)\.0 is PayloadTooBig$" % R],
          "leaf": r"^return Result::Err\(stream::IoReadError::H3\(ErrorCode::%s\)\)$" % SPEC["read_frame_map"]["PayloadTooBig"]},
-        {"name": "UnexpectedFin->Frame", "atoms": [r"^\(\(%s as Err\)\.0 as IO\)\.0 is UnexpectedFin$" % R],
+        {"name": "UnexpectedFin->Frame", "atoms": [r"^\(err\(%s\) as IO\)\.0 is UnexpectedFin$" % R],
          "leaf": r"^return Result::Err\(stream::IoReadError::H3\(ErrorCode::%s\)\)$" % SPEC["read_frame_map"]["UnexpectedFin"]},
-        {"name": "other IO passthrough", "atoms": [r"^\(\(%s as Err\)\.0 as IO\)\.0 isnot UnexpectedFin$" % R],
-         "leaf": r"^return Result::Err\(stream::IoReadError::IO\(\(\(%s as Err\)\.0 as IO\)\.0\)\)$" % R},
+        {"name": "other IO passthrough", "atoms": [r"^\(err\(%s\) as IO\)\.0 isnot UnexpectedFin$" % R],
+         "leaf": r"^return Result::Err\(stream::IoReadError::IO\(\(err\(%s\) as IO\)\.0\)\)$" % R},
     ]
 
 
@@ -114,18 +114,18 @@ def from_buffer_commit(ctx, rid):
     n = 0
     targets = []
     for role in ROLES:
-        targets.append((proto_stream_fn(ctx.A, role, "read_frame_from_buffer"), r"<impl .*?>::read_frame\(&\*self,&BufferReader::child\(&\*buffer_reader\)\)", "read_frame_from_buffer[%s]" % role))
-    targets.append((ctx.A.fn("wtransport_proto::frame::Frame::read_from_buffer"), r"Frame::read\(&BufferReader::child\(&\*buffer_reader\)\)", "Frame::read_from_buffer"))
-    targets.append((ctx.A.fn("wtransport_proto::stream_header::StreamHeader::read_from_buffer"), r"StreamHeader::read\(&BufferReader::child\(&\*buffer_reader\)\)", "StreamHeader::read_from_buffer"))
+        targets.append((proto_stream_fn(ctx.A, role, "read_frame_from_buffer"), r"<impl .*?>::read_frame\(self,BufferReader::child\(buffer_reader\)\)", "read_frame_from_buffer[%s]" % role))
+    targets.append((ctx.A.fn("wtransport_proto::frame::Frame::read_from_buffer"), r"Frame::read\(BufferReader::child\(buffer_reader\)\)", "Frame::read_from_buffer"))
+    targets.append((ctx.A.fn("wtransport_proto::stream_header::StreamHeader::read_from_buffer"), r"StreamHeader::read\(BufferReader::child\(buffer_reader\)\)", "StreamHeader::read_from_buffer"))
     for fn, call, what in targets:
         rows = [
-            {"name": "Some->commit", "atoms": [r"^%s ok$" % call, r"^ok\(%s\) is Some$" % call],
-             "events": [r"^BufferReaderChild::commit\(BufferReader::child\(&\*buffer_reader\)\)$"],
-             "leaf": r"^return Result::Ok\(Option::Some\(\(ok\(%s\) as Some\)\.0\)\)$" % call},
-            {"name": "None->no commit", "atoms": [r"^ok\(%s\) is None$" % call], "not_events": [r"commit", r"BufferReader::skip"],
+            {"name": "Some->commit", "atoms": [r"^%s ok$" % call, r"^ok\(%s\) ok$" % call],
+             "events": [r"^BufferReaderChild::commit\(BufferReader::child\(buffer_reader\)\)$"],
+             "leaf": r"^return Result::Ok\(Option::Some\(ok\(ok\(%s\)\)\)\)$" % call},
+            {"name": "None->no commit", "atoms": [r"^ok\(%s\) fails$" % call], "not_events": [r"commit", r"BufferReader::skip"],
              "leaf": r"^return Result::Ok\(Option::None\)$"},
             {"name": "Err->no commit", "atoms": [r"^%s fails$" % call], "not_events": [r"commit", r"BufferReader::skip"],
-             "leaf": r"^return Err\(from\(err\(%s\)\)\)$" % call},
+             "leaf": r"^return Result::Err\(err\(%s\)\)$" % call},
         ]
         match_table(ctx, rid, fn, walk(fn), rows, what)
         n += 1
@@ -133,7 +133,7 @@ def from_buffer_commit(ctx, rid):
     fc = ctx.A.fn("wtransport_proto::bytes::BufferReaderChild::commit")
     ps = nonpanic(walk(fc))
     evs = [e for p in ps for e in event_strs(p)]
-    okk = any(re.match(r"^BufferReader::skip\(&?\*?self\.parent,BufferReader::offset\(&self\.reader\)\)$", e) for e in evs)
+    okk = any(re.match(r"^BufferReader::skip\(self\.parent,BufferReader::offset\(self\.reader\)\)$", e) for e in evs)
     ctx.check(rid, "BufferReaderChild::commit", okk,
               "BufferReaderChild::commit no longer does `parent.skip(child.offset())`: %s" % evs, where(fc))
     ctx.floor(rid, "commit-or-drop wrappers", n, 6)
@@ -145,28 +145,28 @@ def uni_upgrade_maps(ctx, rid):
     mod, kind, _ = ROLES["uniremote"]
     base = r"^wtransport_proto::stream::uniremote::<impl wtransport_proto::stream::Stream<wtransport_proto::stream::types::UniRemote, wtransport_proto::stream::types::Quic>>::"
     fs = ctx.A.find1(base + r"upgrade$")
-    S = r"StreamHeader::read\(&\*bytes_reader\)"
+    S = r"StreamHeader::read\(bytes_reader\)"
     rows = [
-        {"name": "None->stay Quic", "atoms": [r"^\(%s as Ok\)\.0 is None$" % S], "leaf": r"^return Result::Ok\(MaybeUpgradeH3::Quic\(self\)\)$"},
-        {"name": "Some->H3", "atoms": [r"^\(%s as Ok\)\.0 is Some$" % S],
-         "leaf": r"^return Result::Ok\(MaybeUpgradeH3::H3\(stream::Stream\(self\.kind,H3::new\(Option::Some\(\(\(%s as Ok\)\.0 as Some\)\.0\)\)\)\)\)$" % S},
-        {"name": "UnknownStream", "atoms": [r"^\(%s as Err\)\.0 is UnknownStream$" % S], "leaf": r"^return Result::Err\(ErrorCode::%s\)$" % m["UnknownStream"]},
-        {"name": "InvalidSessionId", "atoms": [r"^\(%s as Err\)\.0 is InvalidSessionId$" % S], "leaf": r"^return Result::Err\(ErrorCode::%s\)$" % m["InvalidSessionId"]},
+        {"name": "None->stay Quic", "atoms": [r"^ok\(%s\) fails$" % S], "leaf": r"^return Result::Ok\(MaybeUpgradeH3::Quic\(self\)\)$"},
+        {"name": "Some->H3", "atoms": [r"^ok\(%s\) ok$" % S],
+         "leaf": r"^return Result::Ok\(MaybeUpgradeH3::H3\(stream::Stream\(self\.kind,H3::new\(Option::Some\(ok\(ok\(%s\)\)\)\)\)\)\)$" % S},
+        {"name": "UnknownStream", "atoms": [r"^err\(%s\) is UnknownStream$" % S], "leaf": r"^return Result::Err\(ErrorCode::%s\)$" % m["UnknownStream"]},
+        {"name": "InvalidSessionId", "atoms": [r"^err\(%s\) is InvalidSessionId$" % S], "leaf": r"^return Result::Err\(ErrorCode::%s\)$" % m["InvalidSessionId"]},
     ]
     match_table(ctx, rid, fs, walk(fs), rows, "uniremote::upgrade")
     fa = ctx.A.find1(base + r"upgrade_async::\{closure#0\}$")
-    R = r"await\(StreamHeader::read_async\(&\*reader\)\)"
+    R = r"await\(StreamHeader::read_async\(reader\)\)"
     rows = [
-        {"name": "Ok->H3", "atoms": [r"^%s is Ok$" % R],
-         "leaf": r"^return Result::Ok\(stream::Stream\(self\.kind,H3::new\(Option::Some\(\(%s as Ok\)\.0\)\)\)\)$" % R},
-        {"name": "UnknownStream", "atoms": [r"^\(\(%s as Err\)\.0 as Parse\)\.0 is UnknownStream$" % R],
+        {"name": "Ok->H3", "atoms": [r"^%s ok$" % R],
+         "leaf": r"^return Result::Ok\(stream::Stream\(self\.kind,H3::new\(Option::Some\(ok\(%s\)\)\)\)\)$" % R},
+        {"name": "UnknownStream", "atoms": [r"^\(err\(%s\) as Parse\)\.0 is UnknownStream$" % R],
          "leaf": r"^return Result::Err\(stream::IoReadError::H3\(ErrorCode::%s\)\)$" % m["UnknownStream"]},
-        {"name": "InvalidSessionId", "atoms": [r"^\(\(%s as Err\)\.0 as Parse\)\.0 is InvalidSessionId$" % R],
+        {"name": "InvalidSessionId", "atoms": [r"^\(err\(%s\) as Parse\)\.0 is InvalidSessionId$" % R],
          "leaf": r"^return Result::Err\(stream::IoReadError::H3\(ErrorCode::%s\)\)$" % m["InvalidSessionId"]},
-        {"name": "UnexpectedFin", "atoms": [r"^\(\(%s as Err\)\.0 as IO\)\.0 is UnexpectedFin$" % R],
+        {"name": "UnexpectedFin", "atoms": [r"^\(err\(%s\) as IO\)\.0 is UnexpectedFin$" % R],
          "leaf": r"^return Result::Err\(stream::IoReadError::H3\(ErrorCode::%s\)\)$" % m["UnexpectedFin"]},
-        {"name": "other IO passthrough", "atoms": [r"^\(\(%s as Err\)\.0 as IO\)\.0 isnot UnexpectedFin$" % R],
-         "leaf": r"^return Result::Err\(stream::IoReadError::IO\(\(\(%s as Err\)\.0 as IO\)\.0\)\)$" % R},
+        {"name": "other IO passthrough", "atoms": [r"^\(err\(%s\) as IO\)\.0 isnot UnexpectedFin$" % R],
+         "leaf": r"^return Result::Err\(stream::IoReadError::IO\(\(err\(%s\) as IO\)\.0\)\)$" % R},
     ]
     match_table(ctx, rid, fa, walk(fa), rows, "uniremote::upgrade_async")
 
@@ -269,27 +269,27 @@ def settings_runner_tables(ctx, rid):
     FIN/reset of the control stream -> H3_CLOSED_CRITICAL_STREAM"""
     A = ctx.A
     fn = _t(A, r"^wtransport::driver::streams::settings::RemoteSettingsStream::run::\{closure#0\}$")
-    RF = r"await\(RemoteSettingsStream::read_frame\(&\*self\)\)"
-    NONE = r"Option::is_none\(&Sender::borrow\(&\*self\.settings\)\)"
+    RF = r"await\(RemoteSettingsStream::read_frame\(self\)\)"
+    NONE = r"Option::is_none\(Sender::borrow\(self\.settings\)\)"
     rows = [
         {"name": "after-settings/GREASE->continue", "atoms": [r"^!%s$" % NONE, r" is Exercise$"], "leaf": r"^continue$"},
         {"name": "after-settings/other->FrameUnexpected", "atoms": [r"^!%s$" % NONE, r" isnot Exercise$"],
          "leaf": r"^return DriverError::Proto\(ErrorCode::FrameUnexpected\)$"},
-        {"name": "first/SETTINGS ok->publish", "atoms": [r"^%s$" % NONE, r" is Settings$", r"^Settings::with_frame\(.*\) is Ok$"],
-         "events": [r"^Sender::send_replace\(&\*self\.settings,Option::Some\(\(Settings::with_frame\(&\(%s as Ok\)\.0\) as Ok\)\.0\)\)$" % RF], "leaf": r"^continue$"},
-        {"name": "first/SETTINGS malformed->its code", "atoms": [r"^%s$" % NONE, r" is Settings$", r"^Settings::with_frame\(.*\) is Err$"],
-         "leaf": r"^return DriverError::Proto\(\(Settings::with_frame\(&\(%s as Ok\)\.0\) as Err\)\.0\)$" % RF},
+        {"name": "first/SETTINGS ok->publish", "atoms": [r"^%s$" % NONE, r" is Settings$", r"^Settings::with_frame\(.*\) ok$"],
+         "events": [r"^Sender::send_replace\(self\.settings,Option::Some\(ok\(Settings::with_frame\(ok\(%s\)\)\)\)\)$" % RF], "leaf": r"^continue$"},
+        {"name": "first/SETTINGS malformed->its code", "atoms": [r"^%s$" % NONE, r" is Settings$", r"^Settings::with_frame\(.*\) fails$"],
+         "leaf": r"^return DriverError::Proto\(err\(Settings::with_frame\(ok\(%s\)\)\)\)$" % RF},
         {"name": "first/not SETTINGS->MissingSettings", "atoms": [r"^%s$" % NONE, r" isnot Settings$"],
          "leaf": r"^return DriverError::Proto\(ErrorCode::MissingSettings\)$"},
-        {"name": "read error passthrough", "atoms": [r"^%s is Err$" % RF], "leaf": r"^return \(%s as Err\)\.0$" % RF},
+        {"name": "read error passthrough", "atoms": [r"^%s fails$" % RF], "leaf": r"^return err\(%s\)$" % RF},
     ]
     match_table(ctx, rid, fn, walk(fn), rows, "RemoteSettingsStream::run")
     fn = _t(A, r"^wtransport::driver::streams::settings::RemoteSettingsStream::read_frame::\{closure#0\}$")
-    R = r"await\(<impl .*?>::read_frame\(&\*\(Option::as_mut\(&\*self\.stream\) as Some\)\.0\)\)"
+    R = r"await\(<impl .*?>::read_frame\(ok\(Option::as_mut\(self\.stream\)\)\)\)"
     rows = [
-        {"name": "no stream->pending", "atoms": [r"^Option::as_mut\(&\*self\.stream\) is None$"], "leaf": r"^pending$"},
-        {"name": "Ok", "atoms": [r"^%s is Ok$" % R], "leaf": r"^return Result::Ok\(\(%s as Ok\)\.0\)$" % R},
-        {"name": "H3(code)->Proto(code)", "atoms": [r" is H3$"], "leaf": r"^return Result::Err\(DriverError::Proto\(\(\(%s as Err\)\.0 as H3\)\.0\)\)$" % R},
+        {"name": "no stream->pending", "atoms": [r"^Option::as_mut\(self\.stream\) fails$"], "leaf": r"^pending$"},
+        {"name": "Ok", "atoms": [r"^%s ok$" % R], "leaf": r"^return Result::Ok\(ok\(%s\)\)$" % R},
+        {"name": "H3(code)->Proto(code)", "atoms": [r" is H3$"], "leaf": r"^return Result::Err\(DriverError::Proto\(\(err\(%s\) as H3\)\.0\)\)$" % R},
         {"name": "ImmediateFin->ClosedCriticalStream", "atoms": [r" is ImmediateFin$"], "leaf": r"^return Result::Err\(DriverError::Proto\(ErrorCode::ClosedCriticalStream\)\)$"},
         {"name": "UnexpectedFin->ClosedCriticalStream", "atoms": [r" is UnexpectedFin$"], "leaf": r"^return Result::Err\(DriverError::Proto\(ErrorCode::ClosedCriticalStream\)\)$"},
         {"name": "Reset->ClosedCriticalStream", "atoms": [r" is Reset$"], "leaf": r"^return Result::Err\(DriverError::Proto\(ErrorCode::ClosedCriticalStream\)\)$"},
@@ -302,8 +302,8 @@ def qpack_runner_tables(ctx, rid):
     for nm in ("RemoteQPackEncStream", "RemoteQPackDecStream"):
         fn = _t(ctx.A, r"^wtransport::driver::streams::qpack::%s::run::\{closure#0\}$" % nm)
         rows = [
-            {"name": "no stream->pending", "atoms": [r"^Option::as_mut\(&\*self\.stream\) is None$"], "leaf": r"^pending$"},
-            {"name": "64 bytes discarded->loop", "atoms": [r"^await\(QuicRecvStream::read_exact\(.*\)\) is Ok$"], "leaf": r"^continue$"},
+            {"name": "no stream->pending", "atoms": [r"^Option::as_mut\(self\.stream\) fails$"], "leaf": r"^pending$"},
+            {"name": "64 bytes discarded->loop", "atoms": [r"^await\(QuicRecvStream::read_exact\(.*\)\) ok$"], "leaf": r"^continue$"},
             {"name": "FinishedEarly->ClosedCriticalStream", "atoms": [r" is FinishedEarly$"], "leaf": r"^return DriverError::Proto\(ErrorCode::ClosedCriticalStream\)$"},
             {"name": "NotConnected", "atoms": [r" is NotConnected$"], "leaf": r"^return DriverError::NotConnected$"},
             {"name": "Reset->ClosedCriticalStream", "atoms": [r" is Reset$"], "leaf": r"^return DriverError::Proto\(ErrorCode::ClosedCriticalStream\)$"},
@@ -315,7 +315,7 @@ def qpack_runner_tables(ctx, rid):
 def local_settings_run_table(ctx, rid):
     fn = _t(ctx.A, r"^wtransport::driver::streams::settings::LocalSettingsStream::run::\{closure#0\}$")
     rows = [
-        {"name": "no stream->pending", "atoms": [r"^Option::as_mut\(&\*self\.stream\) is None$"], "leaf": r"^pending$"},
+        {"name": "no stream->pending", "atoms": [r"^Option::as_mut\(self\.stream\) fails$"], "leaf": r"^pending$"},
         {"name": "NotConnected", "atoms": [r" is NotConnected$"], "leaf": r"^return DriverError::NotConnected$"},
         {"name": "Closed->ClosedCriticalStream", "atoms": [r" is Closed$"], "leaf": r"^return DriverError::Proto\(ErrorCode::ClosedCriticalStream\)$"},
         {"name": "Stopped->ClosedCriticalStream", "atoms": [r" is Stopped$"], "leaf": r"^return DriverError::Proto\(ErrorCode::ClosedCriticalStream\)$"},
@@ -328,11 +328,11 @@ def handle_uni_table(ctx, rid):
     fn = ctx.A.fn("wtransport::driver::worker::Worker::handle_uni_h3_stream")
     rows = []
     for kind, holder in (("Control", "RemoteSettingsStream"), ("QPackEncoder", "RemoteQPackEncStream"), ("QPackDecoder", "RemoteQPackDecStream")):
-        rows.append({"name": "%s duplicate->StreamCreation" % kind, "atoms": [r"::kind\(&stream\) is %s$" % kind, r"^!%s::is_empty\(" % holder],
+        rows.append({"name": "%s duplicate->StreamCreation" % kind, "atoms": [r"::kind\(stream\) is %s$" % kind, r"^!%s::is_empty\(" % holder],
                      "not_events": [r"set_stream"], "leaf": r"^return Result::Err\(DriverError::Proto\(ErrorCode::StreamCreation\)\)$"})
-        rows.append({"name": "%s first->stored" % kind, "atoms": [r"::kind\(&stream\) is %s$" % kind, r"^%s::is_empty\(" % holder],
-                     "events": [r"^%s::set_stream\(&\*self\.\w+,stream\)$" % holder], "leaf": r"^return Result::Ok\(\(\)\)$"})
-    rows.append({"name": "GREASE stream->ignored", "atoms": [r"::kind\(&stream\) is Exercise$"], "not_events": [r"set_stream"], "leaf": r"^return Result::Ok\(\(\)\)$"})
+        rows.append({"name": "%s first->stored" % kind, "atoms": [r"::kind\(stream\) is %s$" % kind, r"^%s::is_empty\(" % holder],
+                     "events": [r"^%s::set_stream\(self\.\w+,stream\)$" % holder], "leaf": r"^return Result::Ok\(\(\)\)$"})
+    rows.append({"name": "GREASE stream->ignored", "atoms": [r"::kind\(stream\) is Exercise$"], "not_events": [r"set_stream"], "leaf": r"^return Result::Ok\(\(\)\)$"})
     paths = walk(fn)
     match_table(ctx, rid, fn, paths, rows, "Worker::handle_uni_h3_stream")
     # the only panic leaf is the WebTransport arm (discharged by routing, see C09)
@@ -343,21 +343,21 @@ def handle_uni_table(ctx, rid):
 
 def handle_bi_table(ctx, rid):
     fn = ctx.A.fn("wtransport::driver::worker::Worker::handle_bi_h3_stream")
-    TF = r"<SessionRequest as TryFrom<Headers>>::try_from\(\(Headers::with_frame\(&first_frame\) as Ok\)\.0\)"
-    STOP = r"^<impl .*?>::stop\(&(\*)?%s,ErrorCode::to_code\(ErrorCode::%s\)\)$"
+    TF = r"<SessionRequest as TryFrom<Headers>>::try_from\(ok\(Headers::with_frame\(first_frame\)\)\)"
+    STOP = r"^<impl .*?>::stop\(()?%s,ErrorCode::to_code\(ErrorCode::%s\)\)$"
     rows = [
-        {"name": "DATA first->FrameUnexpected", "atoms": [r"^Frame::kind\(&first_frame\) is Data$"], "leaf": r"^return Result::Err\(DriverError::Proto\(ErrorCode::FrameUnexpected\)\)$"},
-        {"name": "SETTINGS first->FrameUnexpected", "atoms": [r"^Frame::kind\(&first_frame\) is Settings$"], "leaf": r"^return Result::Err\(DriverError::Proto\(ErrorCode::FrameUnexpected\)\)$"},
-        {"name": "GREASE->ignored", "atoms": [r"^Frame::kind\(&first_frame\) is Exercise$"], "leaf": r"^return Result::Ok\(\(\)\)$"},
-        {"name": "HEADERS undecodable->its code (Decompression)", "atoms": [r"^Headers::with_frame\(&first_frame\) is Err$"],
-         "leaf": r"^return Result::Err\(DriverError::Proto\(\(Headers::with_frame\(&first_frame\) as Err\)\.0\)\)$"},
+        {"name": "DATA first->FrameUnexpected", "atoms": [r"^Frame::kind\(first_frame\) is Data$"], "leaf": r"^return Result::Err\(DriverError::Proto\(ErrorCode::FrameUnexpected\)\)$"},
+        {"name": "SETTINGS first->FrameUnexpected", "atoms": [r"^Frame::kind\(first_frame\) is Settings$"], "leaf": r"^return Result::Err\(DriverError::Proto\(ErrorCode::FrameUnexpected\)\)$"},
+        {"name": "GREASE->ignored", "atoms": [r"^Frame::kind\(first_frame\) is Exercise$"], "leaf": r"^return Result::Ok\(\(\)\)$"},
+        {"name": "HEADERS undecodable->its code (Decompression)", "atoms": [r"^Headers::with_frame\(first_frame\) fails$"],
+         "leaf": r"^return Result::Err\(DriverError::Proto\(err\(Headers::with_frame\(first_frame\)\)\)\)$"},
         {"name": "non-CONNECT->stop RequestRejected, connection survives", "atoms": [r" is MethodNotConnect$"],
          "events": [STOP % ("stream", "RequestRejected")], "leaf": r"^return Result::Ok\(\(\)\)$"},
         {"name": "other malformed->stop Message, connection survives", "atoms": [r" isnot MethodNotConnect$"],
          "events": [STOP % ("stream", "Message")], "leaf": r"^return Result::Ok\(\(\)\)$"},
-        {"name": "valid->queued", "atoms": [r"^%s is Ok$" % TF, r"^BiChannelEndpoint::try_send\(.*\) is Ok$"], "not_events": [r"::stop\("], "leaf": r"^return Result::Ok\(\(\)\)$"},
+        {"name": "valid->queued", "atoms": [r"^%s ok$" % TF, r"^BiChannelEndpoint::try_send\(.*\) ok$"], "not_events": [r"::stop\("], "leaf": r"^return Result::Ok\(\(\)\)$"},
         {"name": "queue full->stop RequestRejected, connection survives", "atoms": [r" is Full$"],
-         "events": [r"^<impl .*?>::stop\(&.* as Full\)\.0,ErrorCode::to_code\(ErrorCode::RequestRejected\)\)$"], "leaf": r"^return Result::Ok\(\(\)\)$"},
+         "events": [r"^<impl .*?>::stop\(.* as Full\)\.0,ErrorCode::to_code\(ErrorCode::RequestRejected\)\)$"], "leaf": r"^return Result::Ok\(\(\)\)$"},
         {"name": "queue closed->NotConnected", "atoms": [r" is Closed$"], "leaf": r"^return Result::Err\(DriverError::NotConnected\)$"},
     ]
     paths = walk(fn)
@@ -371,13 +371,13 @@ def handle_bi_table(ctx, rid):
 def worker_run_table(ctx, rid):
     """Worker::run: the stored error is exactly run_impl's; QUIC close code = error_code.to_code()"""
     fn = _t(ctx.A, r"^wtransport::driver::worker::Worker::run::\{closure#0\}$")
-    E = r"Result::expect_err\(await\(Worker::run_impl\(&self\)\),[^()]*\)"
-    SET = r"^SharedResultSet::set\(&self\.driver_result,%s\)$" % E
+    E = r"Result::expect_err\(await\(Worker::run_impl\(self\)\),[^()]*\)"
+    SET = r"^SharedResultSet::set\(self\.driver_result,%s\)$" % E
     rows = [
         {"name": "Proto(code)->close(code.to_code()), store", "atoms": [r"^%s is Proto$" % E],
-         "events": [r"^Connection::close\(&self\.quic_connection,varint_w2q\(ErrorCode::to_code\(\(%s as Proto\)\.0\)\)," % E, SET], "leaf": r"^return \(\)$"},
+         "events": [r"^Connection::close\(self\.quic_connection,varint_w2q\(ErrorCode::to_code\(\(%s as Proto\)\.0\)\)," % E, SET], "leaf": r"^return \(\)$"},
         {"name": "ApplicationClosed->close(NoError), store", "atoms": [r"^%s is ApplicationClosed$" % E],
-         "events": [r"^Connection::close\(&self\.quic_connection,varint_w2q\(ErrorCode::to_code\(ErrorCode::NoError\)\),", SET], "leaf": r"^return \(\)$"},
+         "events": [r"^Connection::close\(self\.quic_connection,varint_w2q\(ErrorCode::to_code\(ErrorCode::NoError\)\),", SET], "leaf": r"^return \(\)$"},
         {"name": "NotConnected->no close, store", "atoms": [r"^%s is NotConnected$" % E], "not_events": [r"Connection::close"], "events": [SET], "leaf": r"^return \(\)$"},
     ]
     match_table(ctx, rid, fn, walk(fn), rows, "Worker::run")
@@ -390,15 +390,15 @@ DRV = r"^wtransport::driver::Driver::%s::\{closure#0\}$"
 
 def driver_waiters(ctx, rid):
     """every Driver method that waits on a queue reports queue closure as Err(self.result().await)"""
-    RES = r"^return Result::Err\(await\(Driver::result\(&\*self\)\)\)$"
+    RES = r"^return Result::Err\(await\(Driver::result\(self\)\)\)$"
     n = 0
     for name, closed_atom in (
-        ("accept_settings", r"Receiver::recv\(.*ready_settings.*\) is None$"),
-        ("accept_session", r"BiChannelEndpoint::recv\(&\*self\.ready_sessions\)\) is None$"),
-        ("register_session", r"BiChannelEndpoint::send\(&\*self\.ready_sessions,stream_session\)\) is Err$"),
-        ("accept_uni", r"Receiver::recv\(.*ready_uni_wt_streams.*\) is None$"),
-        ("accept_bi", r"Receiver::recv\(.*ready_bi_wt_streams.*\) is None$"),
-        ("receive_datagram", r"Receiver::recv\(.*ready_datagrams.*\) is None$"),
+        ("accept_settings", r"Receiver::recv\(.*ready_settings.*\) fails$"),
+        ("accept_session", r"BiChannelEndpoint::recv\(self\.ready_sessions\)\) fails$"),
+        ("register_session", r"BiChannelEndpoint::send\(self\.ready_sessions,stream_session\)\) fails$"),
+        ("accept_uni", r"Receiver::recv\(.*ready_uni_wt_streams.*\) fails$"),
+        ("accept_bi", r"Receiver::recv\(.*ready_bi_wt_streams.*\) fails$"),
+        ("receive_datagram", r"Receiver::recv\(.*ready_datagrams.*\) fails$"),
     ):
         fn = ctx.A.find1(DRV % name)
         paths = nonpanic(walk(fn))
@@ -412,11 +412,11 @@ def driver_waiters(ctx, rid):
     for name in ("open_uni", "open_bi", "open_session"):
         fn = ctx.A.find1(DRV % name)
         paths = nonpanic(walk(fn))
-        hit = [p for p in paths if any(re.search(r"::open_(uni|bi)\(&\*self\.quic_connection\)\) is None$", a) for a in path_sig(p)[0])]
-        okk = bool(hit) and all(path_sig(p)[1] == "return Err(from(DriverError::NotConnected))" for p in hit)
+        hit = [p for p in paths if any(re.search(r"::open_(uni|bi)\(self\.quic_connection\)\) fails$", a) for a in path_sig(p)[0])]
+        okk = bool(hit) and all(path_sig(p)[1] == "return Result::Err(DriverError::NotConnected)" for p in hit)
         ctx.check(rid, "Driver::%s none" % name, okk, "Driver::%s: failed open is not mapped to NotConnected: %s" % (name, [path_sig(p) for p in hit]), where(fn))
     fn = ctx.A.find1(DRV % "result")
-    rows = [{"name": "result set", "atoms": [r" is Some$"], "leaf": r"^return \(await\(SharedResultGet::result\(&\*self\.driver_result\)\) as Some\)\.0$"}]
+    rows = [{"name": "result set", "atoms": [r" ok$"], "leaf": r"^return ok\(await\(SharedResultGet::result\(self\.driver_result\)\)\)$"}]
     match_table(ctx, rid, fn, walk(fn), rows, "Driver::result")
     ctx.floor(rid, "Driver waiters", n, 6)
 
@@ -424,22 +424,22 @@ def driver_waiters(ctx, rid):
 def driver_session_filters(ctx, rid, which=("accept_uni", "accept_bi", "receive_datagram")):
     """a stream/datagram is returned only under `== session_id`; foreign ones are refused/dropped and the loop continues"""
     spec = {
-        "accept_uni": (r"ready_uni_wt_streams", r"<impl .*?>::session_id\(&\(%s as Some\)\.0\)"),
-        "accept_bi": (r"ready_bi_wt_streams", r"<impl .*?>::session_id\(&\(%s as Some\)\.0\)"),
-        "receive_datagram": (r"ready_datagrams", r"Datagram::session_id\(&\(%s as Some\)\.0\)"),
+        "accept_uni": (r"ready_uni_wt_streams", r"<impl .*?>::session_id\(ok\(%s\)\)"),
+        "accept_bi": (r"ready_bi_wt_streams", r"<impl .*?>::session_id\(ok\(%s\)\)"),
+        "receive_datagram": (r"ready_datagrams", r"Datagram::session_id\(ok\(%s\)\)"),
     }
     for name in which:
         q, sid = spec[name]
         fn = ctx.A.find1(DRV % name)
-        RECV = r"await\(Receiver::recv\(&await\(Mutex::lock\(&\*self\.%s\)\)\)\)" % q
-        EQ = r"<SessionId as PartialEq>::eq\(&%s,&session_id\)" % (sid % RECV)
+        RECV = r"await\(Receiver::recv\(await\(Mutex::lock\(self\.%s\)\)\)\)" % q
+        EQ = r"<SessionId as PartialEq>::eq\(%s,session_id\)" % (sid % RECV)
         rows = [
-            {"name": "own session->returned", "atoms": [r"^%s$" % EQ], "leaf": r"^return Result::Ok\(\(%s as Some\)\.0\)$" % RECV},
+            {"name": "own session->returned", "atoms": [r"^%s$" % EQ], "leaf": r"^return Result::Ok\(ok\(%s\)\)$" % RECV},
             {"name": "foreign->not returned, loop", "atoms": [r"^!%s$" % EQ], "leaf": r"^continue$"},
-            {"name": "queue closed", "atoms": [r"^%s is None$" % RECV], "leaf": r"^return Result::Err\(await\(Driver::result\(&\*self\)\)\)$"},
+            {"name": "queue closed", "atoms": [r"^%s fails$" % RECV], "leaf": r"^return Result::Err\(await\(Driver::result\(self\)\)\)$"},
         ]
         if name != "receive_datagram":
-            rows[1]["events"] = [r"^QuicRecvStream::stop\(&.*,ErrorCode::to_code\(ErrorCode::BufferedStreamRejected\)\)$"]
+            rows[1]["events"] = [r"^QuicRecvStream::stop\(.*,ErrorCode::to_code\(ErrorCode::BufferedStreamRejected\)\)$"]
             rows[0]["not_events"] = [r"::stop\("]
         match_table(ctx, rid, fn, walk(fn), rows, "Driver::%s" % name)
     # SessionId equality is the derived structural one
@@ -449,7 +449,7 @@ def driver_session_filters(ctx, rid, which=("accept_uni", "accept_bi", "receive_
     if f is not None:
         ps = nonpanic(walk(f))
         leafs = {path_sig(p)[1] for p in ps}
-        ctx.check(rid, "SessionId::eq derived", leafs == {"return <StreamId as PartialEq>::eq(&*self.0,&*other.0)"},
+        ctx.check(rid, "SessionId::eq derived", leafs == {"return <StreamId as PartialEq>::eq(self.0,other.0)"},
                   "SessionId == is not the field-wise comparison: %s" % sorted(leafs), where(f))
     else:
         ctx.violation(rid, "SessionId::eq", "cannot decide: <SessionId as PartialEq>::eq not found")
@@ -461,23 +461,23 @@ def connection_error_tables(ctx, rid):
     rows = [
         {"name": "Proto(c)->LocalH3Error(c)", "atoms": [r"^driver_error is Proto$"], "leaf": r"^return ConnectionError::local_h3_error\(\(driver_error as Proto\)\.0\)$"},
         {"name": "ApplicationClosed(c)->ApplicationClosed(c)", "atoms": [r"^driver_error is ApplicationClosed$"], "leaf": r"^return ConnectionError::ApplicationClosed\(\(driver_error as ApplicationClosed\)\.0\)$"},
-        {"name": "NotConnected->no_connect", "atoms": [r"^driver_error is NotConnected$"], "leaf": r"^return ConnectionError::no_connect\(&\*quic_connection\)$"},
+        {"name": "NotConnected->no_connect", "atoms": [r"^driver_error is NotConnected$"], "leaf": r"^return ConnectionError::no_connect\(quic_connection\)$"},
     ]
     match_table(ctx, rid, fn, walk(fn), rows, "ConnectionError::with_driver_error")
     fn = A.fn("wtransport::error::ConnectionError::local_h3_error")
     ls = [path_sig(p)[1] for p in nonpanic(walk(fn))]
     ctx.check(rid, "local_h3_error", ls == ["return ConnectionError::LocalH3Error(H3Error(error_code))"], "local_h3_error does not wrap the given code: %s" % ls, where(fn))
-    CR = r"Connection::close_reason\(&\*quic_connection\)"
+    CR = r"Connection::close_reason\(quic_connection\)"
     fn = A.fn("wtransport::error::ConnectionError::no_connect")
     rows = [
-        {"name": "close_reason None->LocallyClosed", "atoms": [r"^%s is None$" % CR], "leaf": r"^return ConnectionError::LocallyClosed$"},
-        {"name": "close_reason Some(r)->r.into()", "atoms": [r"^%s is Some$" % CR], "leaf": r"^return \(%s as Some\)\.0$" % CR},
+        {"name": "close_reason None->LocallyClosed", "atoms": [r"^%s fails$" % CR], "leaf": r"^return ConnectionError::LocallyClosed$"},
+        {"name": "close_reason Some(r)->r.into()", "atoms": [r"^%s ok$" % CR], "leaf": r"^return ok\(%s\)$" % CR},
     ]
     match_table(ctx, rid, fn, walk(fn), rows, "ConnectionError::no_connect")
     fn = A.fn("wtransport::error::ConnectingError::with_no_connection")
     rows = [
-        {"name": "close_reason None->LocallyClosed", "atoms": [r"^%s is None$" % CR], "leaf": r"^return ConnectingError::ConnectionError\(ConnectionError::LocallyClosed\)$"},
-        {"name": "close_reason Some(r)->r.into()", "atoms": [r"^%s is Some$" % CR], "leaf": r"^return ConnectingError::ConnectionError\(\(%s as Some\)\.0\)$" % CR},
+        {"name": "close_reason None->LocallyClosed", "atoms": [r"^%s fails$" % CR], "leaf": r"^return ConnectingError::ConnectionError\(ConnectionError::LocallyClosed\)$"},
+        {"name": "close_reason Some(r)->r.into()", "atoms": [r"^%s ok$" % CR], "leaf": r"^return ConnectingError::ConnectionError\(ok\(%s\)\)$" % CR},
     ]
     match_table(ctx, rid, fn, walk(fn), rows, "ConnectingError::with_no_connection")
     fn = A.fn("<wtransport::error::ConnectionError as std::convert::From<quinn::ConnectionError>>::from")
@@ -487,7 +487,7 @@ def connection_error_tables(ctx, rid):
          "leaf": r"^return ConnectionError::QuicProto\(QuicProtoError\(Result::ok\(VarInt::try_from_u64\(\(error as TransportError\)\.0\.code\)\),Cow::Owned\(\(error as TransportError\)\.0\.reason\)\)\)$"},
         {"name": "ConnectionClosed", "atoms": [r"^error is ConnectionClosed$"], "leaf": r"^return ConnectionError::ConnectionClosed\(ConnectionClose\(\(error as ConnectionClosed\)\.0\)\)$"},
         {"name": "ApplicationClosed(code,reason) unchanged", "atoms": [r"^error is ApplicationClosed$"],
-         "leaf": r"^return ConnectionError::ApplicationClosed\(ApplicationClose\(varint_q2w\(\(error as ApplicationClosed\)\.0\.error_code\),Vec::into_boxed_slice\(<impl \[T\]>::to_vec\(&\(error as ApplicationClosed\)\.0\.reason\)\)\)\)$"},
+         "leaf": r"^return ConnectionError::ApplicationClosed\(ApplicationClose\(varint_q2w\(\(error as ApplicationClosed\)\.0\.error_code\),Vec::into_boxed_slice\(<impl \[T\]>::to_vec\(\(error as ApplicationClosed\)\.0\.reason\)\)\)\)$"},
         {"name": "Reset", "atoms": [r"^error is Reset$"], "leaf": r"^return ConnectionError::QuicProto\(QuicProtoError\(Option::None,"},
         {"name": "TimedOut", "atoms": [r"^error is TimedOut$"], "leaf": r"^return ConnectionError::TimedOut$"},
         {"name": "LocallyClosed", "atoms": [r"^error is LocallyClosed$"], "leaf": r"^return ConnectionError::LocallyClosed$"},
@@ -505,30 +505,30 @@ def spawned_task_tables(ctx, rid):
     fn = A.find1(r"^wtransport::driver::worker::Worker::accept_uni::\{closure#0\}::\{closure#0\}$")
     UP = r"await\(<impl .*?UniRemote, Quic>>>::upgrade\(stream_quic\)\)"
     rows = [
-        {"name": "WebTransport stream->wt queue (same stream, upgraded)", "atoms": [r"^%s is Ok$" % UP, r"::kind\(&\(%s as Ok\)\.0\) is WebTransport$" % UP],
-         "events": [r"^OwnedPermit::send\(wt_slot,<impl .*?UniRemote, H3>>>::upgrade\(\(%s as Ok\)\.0\)\)$" % UP], "not_events": [r"^OwnedPermit::send\(h3_slot"], "leaf": r"^return \(\)$"},
-        {"name": "H3 stream->h3 queue (same stream)", "atoms": [r"^%s is Ok$" % UP, r"::kind\(&\(%s as Ok\)\.0\) isnot WebTransport$" % UP],
-         "events": [r"^OwnedPermit::send\(h3_slot,Result::Ok\(\(%s as Ok\)\.0\)\)$" % UP], "not_events": [r"^OwnedPermit::send\(wt_slot"], "leaf": r"^return \(\)$"},
-        {"name": "unknown stream type->discarded, never a connection error", "atoms": [r"^\(\(%s as Err\)\.0 as H3\)\.0 is StreamCreation$" % UP],
+        {"name": "WebTransport stream->wt queue (same stream, upgraded)", "atoms": [r"^%s ok$" % UP, r"::kind\(ok\(%s\)\) is WebTransport$" % UP],
+         "events": [r"^OwnedPermit::send\(wt_slot,<impl .*?UniRemote, H3>>>::upgrade\(ok\(%s\)\)\)$" % UP], "not_events": [r"^OwnedPermit::send\(h3_slot"], "leaf": r"^return \(\)$"},
+        {"name": "H3 stream->h3 queue (same stream)", "atoms": [r"^%s ok$" % UP, r"::kind\(ok\(%s\)\) isnot WebTransport$" % UP],
+         "events": [r"^OwnedPermit::send\(h3_slot,Result::Ok\(ok\(%s\)\)\)$" % UP], "not_events": [r"^OwnedPermit::send\(wt_slot"], "leaf": r"^return \(\)$"},
+        {"name": "unknown stream type->discarded, never a connection error", "atoms": [r"^\(err\(%s\) as H3\)\.0 is StreamCreation$" % UP],
          "not_events": [r"OwnedPermit::send"], "leaf": r"^return \(\)$"},
-        {"name": "other H3 error->reported to worker", "atoms": [r"^\(\(%s as Err\)\.0 as H3\)\.0 isnot StreamCreation$" % UP],
-         "events": [r"^OwnedPermit::send\(h3_slot,Result::Err\(DriverError::Proto\(\(\(%s as Err\)\.0 as H3\)\.0\)\)\)$" % UP], "leaf": r"^return \(\)$"},
-        {"name": "IO error->stream dropped silently", "atoms": [r"^\(%s as Err\)\.0 is IO$" % UP], "not_events": [r"OwnedPermit::send"], "leaf": r"^return \(\)$"},
+        {"name": "other H3 error->reported to worker", "atoms": [r"^\(err\(%s\) as H3\)\.0 isnot StreamCreation$" % UP],
+         "events": [r"^OwnedPermit::send\(h3_slot,Result::Err\(DriverError::Proto\(\(err\(%s\) as H3\)\.0\)\)\)$" % UP], "leaf": r"^return \(\)$"},
+        {"name": "IO error->stream dropped silently", "atoms": [r"^err\(%s\) is IO$" % UP], "not_events": [r"OwnedPermit::send"], "leaf": r"^return \(\)$"},
     ]
     match_table(ctx, rid, fn, walk(fn), rows, "accept_uni task")
     fn = A.find1(r"^wtransport::driver::worker::Worker::accept_bi::\{closure#0\}::\{closure#0\}$")
     H3S = r"<impl .*?BiRemote, Quic>>>::upgrade\(stream_quic\)"
-    RF = r"await\(<impl .*?BiRemote, H3>>>::read_frame\(&%s\)\)" % H3S
+    RF = r"await\(<impl .*?BiRemote, H3>>>::read_frame\(%s\)\)" % H3S
     rows = [
-        {"name": "GREASE frame->keep reading", "atoms": [r"^Frame::kind\(&\(%s as Ok\)\.0\) is Exercise$" % RF], "not_events": [r"OwnedPermit::send"], "leaf": r"^continue$"},
-        {"name": "WT signal->wt queue (same stream, session id of the frame)", "atoms": [r"^Frame::session_id\(&\(%s as Ok\)\.0\) is Some$" % RF],
-         "events": [r"^OwnedPermit::send\(wt_slot,<impl .*?BiRemote, H3>>>::upgrade\(%s,\(Frame::session_id\(&\(%s as Ok\)\.0\) as Some\)\.0\)\)$" % (H3S, RF)],
+        {"name": "GREASE frame->keep reading", "atoms": [r"^Frame::kind\(ok\(%s\)\) is Exercise$" % RF], "not_events": [r"OwnedPermit::send"], "leaf": r"^continue$"},
+        {"name": "WT signal->wt queue (same stream, session id of the frame)", "atoms": [r"^Frame::session_id\(ok\(%s\)\) ok$" % RF],
+         "events": [r"^OwnedPermit::send\(wt_slot,<impl .*?BiRemote, H3>>>::upgrade\(%s,ok\(Frame::session_id\(ok\(%s\)\)\)\)\)$" % (H3S, RF)],
          "not_events": [r"^OwnedPermit::send\(h3_slot"], "leaf": r"^return \(\)$"},
-        {"name": "other first frame->h3 queue with the frame", "atoms": [r"^Frame::session_id\(&\(%s as Ok\)\.0\) is None$" % RF],
-         "events": [r"^OwnedPermit::send\(h3_slot,Result::Ok\(\(%s,\(%s as Ok\)\.0\)\)\)$" % (H3S, RF)], "not_events": [r"^OwnedPermit::send\(wt_slot"], "leaf": r"^return \(\)$"},
-        {"name": "H3 error->reported to worker", "atoms": [r"^\(%s as Err\)\.0 is H3$" % RF],
-         "events": [r"^OwnedPermit::send\(h3_slot,Result::Err\(DriverError::Proto\(\(\(%s as Err\)\.0 as H3\)\.0\)\)\)$" % RF], "leaf": r"^return \(\)$"},
-        {"name": "IO error->stream dropped silently", "atoms": [r"^\(%s as Err\)\.0 is IO$" % RF], "not_events": [r"OwnedPermit::send"], "leaf": r"^return \(\)$"},
+        {"name": "other first frame->h3 queue with the frame", "atoms": [r"^Frame::session_id\(ok\(%s\)\) fails$" % RF],
+         "events": [r"^OwnedPermit::send\(h3_slot,Result::Ok\(\(%s,ok\(%s\)\)\)\)$" % (H3S, RF)], "not_events": [r"^OwnedPermit::send\(wt_slot"], "leaf": r"^return \(\)$"},
+        {"name": "H3 error->reported to worker", "atoms": [r"^err\(%s\) is H3$" % RF],
+         "events": [r"^OwnedPermit::send\(h3_slot,Result::Err\(DriverError::Proto\(\(err\(%s\) as H3\)\.0\)\)\)$" % RF], "leaf": r"^return \(\)$"},
+        {"name": "IO error->stream dropped silently", "atoms": [r"^err\(%s\) is IO$" % RF], "not_events": [r"OwnedPermit::send"], "leaf": r"^return \(\)$"},
     ]
     match_table(ctx, rid, fn, walk(fn), rows, "accept_bi task")
 
@@ -556,7 +556,7 @@ def permit_before_pull(ctx, rid):
                 bad.append(before)
             # and the reservations succeeded on this path
             atoms = path_sig(p)[0]
-            okres = [a for a in atoms if re.search(r"Sender::reserve(_owned)?\(.*\) is Ok$", a)] + \
+            okres = [a for a in atoms if re.search(r"Sender::reserve(_owned)?\(.*\) ok$", a)] + \
                     [e for e in before if re.match(r"^Result::expect\(await\(Sender::reserve", e)]
             if len(okres) < nres:
                 bad.append(atoms)
@@ -575,19 +575,19 @@ def connect_response_table(ctx, rid):
         return bool(hit) and all(re.search(leaf_rx, l) for a, l in hit)
     ctx.check(rid, "connect: non-HEADERS response->FrameUnexpected", has(r"^Frame::kind\(.*\) isnot Headers$", r"local_h3_error\(ErrorCode::FrameUnexpected\)"),
               "Endpoint::connect: a non-HEADERS first response frame is not refused with H3_FRAME_UNEXPECTED", where(fn))
-    ctx.check(rid, "connect: undecodable HEADERS->its code", has(r"^Headers::with_frame\(.*\) is Err$", r"local_h3_error\(….0\)|local_h3_error\(\(Headers::with_frame"),
+    ctx.check(rid, "connect: undecodable HEADERS->its code", has(r"^Headers::with_frame\(.*\) fails$", r"local_h3_error\(err\((…|Headers::with_frame)"),
               "Endpoint::connect: undecodable HEADERS not reported with the decoder's error code", where(fn))
-    ctx.check(rid, "connect: malformed status->Message", has(r"^<SessionResponse as TryFrom<Headers>>::try_from\(.*\) is Err$", r"local_h3_error\(ErrorCode::Message\)"),
+    ctx.check(rid, "connect: malformed status->Message", has(r"^<SessionResponse as TryFrom<Headers>>::try_from\(.*\) fails$", r"local_h3_error\(ErrorCode::Message\)"),
               "Endpoint::connect: malformed response not refused with H3_MESSAGE_ERROR", where(fn))
     ctx.check(rid, "connect: non-2xx->SessionRejected", has(r"^!StatusCode::is_successful\(SessionResponse::code\(", r"^return Result::Err\(ConnectingError::SessionRejected\)$"),
               "Endpoint::connect: a non-2xx status does not yield SessionRejected", where(fn))
     okp = [(a, l) for a, l in sigs if l.startswith("return Result::Ok(Connection::new(")]
     ctx.check(rid, "connect: Ok only on 2xx + registered", bool(okp) and all(
-        any(re.search(r"^StatusCode::is_successful\(SessionResponse::code\(", x) for x in a) and any(re.search(r"^await\(Driver::register_session\(.*\)\) is Ok$", x) for x in a) for a, l in okp),
+        any(re.search(r"^StatusCode::is_successful\(SessionResponse::code\(", x) for x in a) and any(re.search(r"^await\(Driver::register_session\(.*\)\) ok$", x) for x in a) for a, l in okp),
         "Endpoint::connect returns Ok(Connection) on a path without `code().is_successful()` and a registered session", where(fn))
     rej = [(a, l) for a, l in sigs if l == "return Result::Err(ConnectingError::SessionRejected)"]
     ctx.check(rid, "connect: SessionRejected causes", bool(rej) and all(
-        any(re.search(r"^!StatusCode::is_successful\(", x) for x in a[-2:]) or any(re.search(r"write_frame\(.*\)\) as Err\)\.0 is Stopped$", x) for x in a[-2:]) for a, l in rej),
+        any(re.search(r"^!StatusCode::is_successful\(", x) for x in a[-2:]) or any(re.search(r"^err\(await\(.*write_frame\(.*\)\)\) is Stopped$", x) for x in a[-2:]) for a, l in rej),
         "Endpoint::connect reports SessionRejected for a cause other than a non-2xx status / stopped request stream: %s" % [a[-1] for a, l in rej][:3], where(fn))
 
 
@@ -636,7 +636,7 @@ def qpack_static_table(ctx, rid):
             ctx.check(rid, "static[%d]" % i, list(row) == list(want), "QPACK static table row %d is %s, RFC 9204 Appendix A says %s" % (i, row, want), c["at"]["sp"])
     f = ctx.A.fn("wtransport_proto::qpack::StaticTable::lookup_field")
     sg = [path_sig(p)[1] for p in nonpanic(walk(f))]
-    ctx.check(rid, "lookup_field indexes the table", sg == ["return Option::cloned(<impl [T]>::get(&*(StaticTable::STATIC_TABLE as &[(&str, &str)]),index))"] or (len(sg) == 1 and "STATIC_TABLE" in sg[0] and "get(" in sg[0] and ",index)" in sg[0]),
+    ctx.check(rid, "lookup_field indexes the table", sg == ["return Option::cloned(<impl [T]>::get((StaticTable::STATIC_TABLE as &[(str, &str)]),index))"] or (len(sg) == 1 and "STATIC_TABLE" in sg[0] and "get(" in sg[0] and ",index)" in sg[0]),
               "StaticTable::lookup_field is not STATIC_TABLE.get(index): %s" % sg, where(f))
     g = ctx.A.find1(r"^wtransport_proto::qpack::StaticTable::lookup_index$")
     ev = [e for p in nonpanic(walk(g)) for e in event_strs(p)]
@@ -656,7 +656,13 @@ def qpack_representations(ctx, rid):
             cs = _calls_with_cargs(p, r"Encoder::encode_(integer|string)$")
             if prefix is None and len(cs) >= 2:
                 prefix = [(n, cg, const_val(e[2][0])) for n, cg, e in cs[:2]]
-            which = [a.split(" is ")[-1] for a in path_sig(p)[0] if re.search(r"lookup_index\(.*\) (as Some\)\.0 )?is (KeyValue|KeyOnly|None)$", a)]
+            which = []
+            for a in path_sig(p)[0]:
+                m = re.search(r"lookup_index\(.*\)\)? is (KeyValue|KeyOnly)$", a)
+                if m:
+                    which.append(m.group(1))
+                elif re.search(r"lookup_index\(.*\) fails$", a):
+                    which.append("None")
             body = [(n, cg, const_val(e[2][0])) for n, cg, e in cs[2:]]
             if which:
                 got.add((which[-1], tuple(body)))
@@ -753,10 +759,10 @@ def preamble_writers(ctx, rid):
                 m = re.match(r"^(?:<.*? as )?(?:BytesWriter|BytesWriterAsync)>?::(put_varint|put_bytes|put_buffer)\((.*)\)$", e)
                 if m:
                     arg = m.group(2)
-                    what = "kind.id" if re.search(r"%sKind::id\(\*?self\.kind\)" % ("Stream" if ty == "StreamHeader" else "Frame"), arg) else \
+                    what = "kind.id" if re.search(r"%sKind::id\(self\.kind\)" % ("Stream" if ty == "StreamHeader" else "Frame"), arg) else \
                            ("session_id" if "SessionId::into_varint(" in arg else ("payload.len" if "len(" in arg else ("payload" if "self.payload" in arg else "?")))
                     seq.append(m.group(1).replace("put_buffer", "put_bytes") + ":" + what)
-            wt = any(re.search(r"%s::session_id\(&\*self\) is Some$" % ty, a) for a in path_sig(p)[0])
+            wt = any(re.search(r"%s::session_id\(self\) ok$" % ty, a) for a in path_sig(p)[0])
             seqs.add((wt, tuple(seq)))
         want = {(True, ("put_varint:kind.id", "put_varint:session_id"))}
         if ty == "StreamHeader":
@@ -772,7 +778,7 @@ def preamble_writers(ctx, rid):
                   "%s::new_webtransport does not build (WebTransport, Some(session_id)): %s" % (ty, sg), where(f))
         f = A.fn("wtransport_proto::%s::%s::session_id" % (mod, ty))
         sg = sorted(path_sig(p) for p in nonpanic(walk(f)))
-        want = sorted([(("*self.kind is WebTransport",), "return <impl bool>::then(1,closure:%s::{closure#0})" % ty), (("*self.kind isnot WebTransport",), "return <impl bool>::then(0,closure:%s::{closure#0})" % ty)])
+        want = sorted([(("self.kind is WebTransport",), "return <impl bool>::then(1,closure:%s::{closure#0})" % ty), (("self.kind isnot WebTransport",), "return <impl bool>::then(0,closure:%s::{closure#0})" % ty)])
         ctx.check(rid, "%s::session_id" % ty, sg == want, "%s::session_id is not `matches!(kind, WebTransport).then(..)`: %s" % (ty, sg), where(f))
 
 
@@ -799,7 +805,7 @@ def reader_sequences(ctx, rid):
                 seq = tuple(_reader_seq(p))
                 kind = None
                 for a in atoms:
-                    m = re.search(r"(FrameKind|StreamKind)::parse\(.*\)\)? is (WebTransport)$", a) or re.search(r"some\((FrameKind|StreamKind)::parse\(.*\)\) (is|isnot) (WebTransport)$", a)
+                    m = re.search(r"(FrameKind|StreamKind)::parse\(.*\)\)? is (WebTransport)$", a) or re.search(r"ok\((FrameKind|StreamKind)::parse\(.*\)\) (is|isnot) (WebTransport)$", a)
                     if m:
                         kind = "WT" if " is WebTransport" in a else "other"
                 capa = [re.sub(r".* (<=|>) ", r"\1 ", a) for a in atoms if "MAX_PARSE_PAYLOAD_ALLOWED" in a]
@@ -813,7 +819,7 @@ def reader_sequences(ctx, rid):
                     out = "NeedMore"
                 elif leaf.startswith("return Result::Ok("):
                     out = "Ok"
-                elif is_async and re.search(r"Err\(from\((apply\(closure:.*,)?err\(await\(", leaf):
+                elif is_async and re.search(r"^return Result::Err\((apply\(closure:.*,)?err\(await\(", leaf):
                     out = "NeedMore"   # EOF / IO error of the source = the async form of `incomplete`
                 else:
                     out = "?" + leaf[:60]
@@ -841,10 +847,10 @@ def poll_loops(ctx, rid):
     A = ctx.A
     P = "wtransport_proto::bytes::r#async::"
     spec = {
-        "GetVarint<R>": ("AsyncRead::poll_read", {r"Range\(0,1\)", r"Range\(\*self\.offset,\*self\.varint_size\)"}, r"\*self\.varint_size"),
-        "GetBuffer<R>": ("AsyncRead::poll_read", {r"RangeFrom\(\*self\.offset\)"}, r"<impl \[T\]>::len\(&\*\*self\.buffer\)"),
-        "PutVarint<W>": ("AsyncWrite::poll_write", {r"Range\(\*self\.offset,\*self\.varint_size\)"}, r"\*self\.varint_size"),
-        "PutBuffer<W>": ("AsyncWrite::poll_write", {r"RangeFrom\(\*self\.offset\)"}, r"<impl \[T\]>::len\(&\*\*self\.buffer\)"),
+        "GetVarint<R>": ("AsyncRead::poll_read", {r"Range\(0,1\)", r"Range\(self\.offset,self\.varint_size\)"}, r"self\.varint_size"),
+        "GetBuffer<R>": ("AsyncRead::poll_read", {r"RangeFrom\(self\.offset\)"}, r"<impl \[T\]>::len\(self\.buffer\)"),
+        "PutVarint<W>": ("AsyncWrite::poll_write", {r"Range\(self\.offset,self\.varint_size\)"}, r"self\.varint_size"),
+        "PutBuffer<W>": ("AsyncWrite::poll_write", {r"RangeFrom\(self\.offset\)"}, r"<impl \[T\]>::len\(self\.buffer\)"),
     }
     for ty, (prim, ranges, limit) in spec.items():
         f = A.fn("<%s%s as std::future::Future>::poll" % (P, ty))
@@ -852,7 +858,7 @@ def poll_loops(ctx, rid):
         seen = set()
         for p in ps:
             for e in event_strs(p):
-                m = re.match(r"^%s\(&\*\*self\.(reader|writer),&\*cx,&\*<impl Index(Mut)?<I> for \[T(; N)?\]>::index(_mut)?\(&\*+self\.buffer,(.*)\)\)$" % re.escape(prim), e)
+                m = re.match(r"^%s\(self\.(reader|writer),cx,<impl Index(Mut)?<I> for \[T(; N)?\]>::index(_mut)?\(self\.buffer,(.*)\)\)$" % re.escape(prim), e)
                 if m:
                     seen.add(m.group(5))
                 elif e.startswith(prim + "("):
@@ -867,18 +873,18 @@ def poll_loops(ctx, rid):
             if p.leaf[0] != "loop" and not (ty == "GetVarint<R>" and p.leaf[0] == "return"):
                 continue
             for e in event_strs(p):
-                m = re.match(r"^store \*self\.offset := (.*)$", e)
+                m = re.match(r"^store self\.offset := (.*)$", e)
                 if m:
                     adv.add(re.sub(r"%s\(.*?\)\) as Ready\)\.0\)" % re.escape(prim), "N)", m.group(1)))
-        want = {"AddWithOverflow(*self.offset,ok((N)).0"} | ({"1"} if ty == "GetVarint<R>" else set())
+        want = {"AddWithOverflow(self.offset,ok((N)).0"} | ({"1"} if ty == "GetVarint<R>" else set())
         ctx.check(rid, "%s offset advance" % ty, adv == want, "%s::poll advances offset by %s, expected `offset += returned count`%s" % (ty, sorted(adv), " and `offset = 1` after the first byte" if ty == "GetVarint<R>" else ""), where(f))
         # completion
         done = [path_sig(p) for p in nonpanic(ps) if re.match(r"^return Poll::Ready\(Result::Ok\(", path_sig(p)[1])]
-        okd = bool(done) and all(any(re.fullmatch(r"\*self\.offset >= %s" % limit, a) for a in at) for at, _ in done)
+        okd = bool(done) and all(any(re.fullmatch(r"self\.offset >= %s" % limit, a) for a in at) for at, _ in done)
         ctx.check(rid, "%s completes iff offset >= field length" % ty, okd, "%s::poll completes on a path without `offset >= %s`: %s" % (ty, limit, [a[-2:] for a, _ in done]), where(f))
     f = A.fn("wtransport_proto::bytes::r#async::PutVarint::new")
     sg = [path_sig(p)[1] for p in nonpanic(walk(f))]
-    ctx.check(rid, "PutVarint::new size from the encoder", len(sg) == 1 and re.search(r",0,BufferWriter::offset\(&BufferWriter::new\(", sg[0]) is not None, "PutVarint::new does not take varint_size from the number of bytes octets wrote: %s" % sg, where(f))
+    ctx.check(rid, "PutVarint::new size from the encoder", len(sg) == 1 and re.search(r",0,BufferWriter::offset\(BufferWriter::new\(", sg[0]) is not None, "PutVarint::new does not take varint_size from the number of bytes octets wrote: %s" % sg, where(f))
 
 
 def settings_with_frame_table(ctx, rid):
@@ -890,7 +896,7 @@ def settings_with_frame_table(ctx, rid):
         {"name": "known, duplicate->H3_SETTINGS_ERROR", "atoms": [r" is Occupied$"], "leaf": r"^return Result::Err\(ErrorCode::Settings\)$"},
         {"name": "reserved->H3_SETTINGS_ERROR", "atoms": [r" is ReservedSetting$"], "leaf": r"^return Result::Err\(ErrorCode::Settings\)$"},
         {"name": "unknown->ignored", "atoms": [r" is UnknownSetting$"], "not_events": [r"insert\("], "leaf": r"^continue$"},
-        {"name": "truncated->H3_FRAME_ERROR", "atoms": [r"get_varint\(.*\) is None$"], "leaf": r"^return Err\(from\(ErrorCode::Frame\)\)$"},
+        {"name": "truncated->H3_FRAME_ERROR", "atoms": [r"get_varint\(.*\) fails$"], "leaf": r"^return Result::Err\(ErrorCode::Frame\)$"},
     ]
     match_table(ctx, rid, f, walk(f), rows, "Settings::with_frame")
 
@@ -907,8 +913,8 @@ def headers_store_identity(ctx, rid):
     f = ctx.A.fn("wtransport_proto::headers::Headers::insert")
     ps = nonpanic(walk(f))
     evs = [event_strs(p) for p in ps]
-    want = ["ToString::to_string(&key)", "ToString::to_string(&value)",
-            "HashMap::insert(&*self.0,ToString::to_string(&key),ToString::to_string(&value))"]
+    want = ["ToString::to_string(key)", "ToString::to_string(value)",
+            "HashMap::insert(self.0,ToString::to_string(key),ToString::to_string(value))"]
     ctx.check(rid, "Headers::insert stores (key,value) unchanged", len(ps) == 1 and evs[0] == want,
               "Headers::insert no longer stores exactly (key.to_string(), value.to_string()): a field name/value is transformed "
               "after the callers' guards were evaluated on it: %s" % evs, where(f))
@@ -916,11 +922,11 @@ def headers_store_identity(ctx, rid):
     ps = nonpanic(walk(f))
     ls = [path_sig(p)[1] for p in ps]
     ctx.check(rid, "Headers::get looks the key up unchanged",
-              ls == ["return Option::map(HashMap::get(&*self.0,&*AsRef::as_ref(&key)),closure:Headers::{closure#0})"],
+              ls == ["return Option::map(HashMap::get(self.0,AsRef::as_ref(key)),closure:Headers::{closure#0})"],
               "Headers::get is no longer `self.0.get(key.as_ref()).map(String::as_str)`: %s" % ls, where(f))
     cl = ctx.A.fn("wtransport_proto::headers::Headers::get::{closure#0}")
     ls = [path_sig(p)[1] for p in nonpanic(walk(cl))]
-    ctx.check(rid, "Headers::get returns the stored value unchanged", ls == ["return String::as_str(&*s)"],
+    ctx.check(rid, "Headers::get returns the stored value unchanged", ls == ["return String::as_str(s)"],
               "Headers::get transforms the stored value: %s" % ls, where(cl))
     # the map type: exact-match keys (a case-insensitive or normalising map type would change the guard semantics as well)
     adt = ctx.A.adt("wtransport_proto::headers::Headers")
@@ -963,23 +969,23 @@ def request_from_url(ctx, rid):
             got = [strexpr.show(strexpr.parts(A, x)) for x in pairs.get(k, [])]
             ctx.check(rid, "%s == '%s'" % (k, v), got == [repr(v)], "SessionRequest::new sets %s to %s, expected the literal '%s'" % (k, got, v), where(f))
         # the parsed URL the request is built from: subject of the https guard
-        urls = {m.group(1) for a in path_sig(p)[0] for m in [re.match(r"^!<impl PartialEq<&B> for &A>::ne\(&Url::scheme\(&(.*)\),&\*'https'\)$", a)] if m}
+        urls = {m.group(1) for a in path_sig(p)[0] for m in [re.match(r"^!<impl PartialEq<&B> for &A>::ne\(Url::scheme\((.*)\),'https'\)$", a)] if m}
         if not ctx.check(rid, "accepting path is guarded by url.scheme() == 'https'", len(urls) == 1,
                          "accepting path of SessionRequest::new is not guarded by `url.scheme() == \"https\"` (guards: %s)" % list(path_sig(p)[0]), where(f)):
             continue
         U = urls.pop()
         au = [strexpr.parts(A, x) for x in pairs.get(":authority", [])]
-        ctx.check(rid, ":authority == url.authority()", au == [(("val", "Url::authority(&%s)" % U),)],
-                  ":authority is built as %s, expected Url::authority(&%s)" % ([strexpr.show(x) for x in au], U), where(f))
+        ctx.check(rid, ":authority == url.authority()", au == [(("val", "Url::authority(%s)" % U),)],
+                  ":authority is built as %s, expected Url::authority(%s)" % ([strexpr.show(x) for x in au], U), where(f))
         pa = [strexpr.parts(A, x) for x in pairs.get(":path", [])]
-        q = "Url::query(&%s)" % U
-        want_comb = (("val", "Url::path(&%s)" % U), ("opt", q, (("lit", "?"), strexpr.IT), ()))
-        want_some = (("val", "Url::path(&%s)" % U), ("lit", "?"), ("val", "(%s as Some).0" % q))
-        want_none = (("val", "Url::path(&%s)" % U),)
+        q = "Url::query(%s)" % U
+        want_comb = (("val", "Url::path(%s)" % U), ("opt", q, (("lit", "?"), strexpr.IT), ()))
+        want_some = (("val", "Url::path(%s)" % U), ("lit", "?"), ("val", "ok(%s)" % q))
+        want_none = (("val", "Url::path(%s)" % U),)
         atoms = set(path_sig(p)[0])
-        if ("%s is Some" % q) in atoms:
+        if ("%s ok" % q) in atoms:
             want = [want_some, want_comb]
-        elif ("%s is None" % q) in atoms:
+        elif ("%s fails" % q) in atoms:
             want = [want_none, want_comb]
         else:
             want = [want_comb]
@@ -994,19 +1000,19 @@ def connect_stream_run_table(ctx, rid):
     """decision table of `ConnectStream::run`: which DriverError each way of ending the session (CONNECT) stream produces"""
     A = ctx.A
     fn = A.find1(r"^wtransport::driver::streams::connect::ConnectStream::run::\{closure#0\}$")
-    RF = r"await\(<impl .*?>::read_frame\(&\*\(Option::as_mut\(&\*self\.stream\) as Some\)\.0\)\)"
-    CAP = r"Capsule::with_frame\(&\(%s as Ok\)\.0\)" % RF
-    CL = r"CloseWebTransportSession::with_capsule\(&\(%s as Some\)\.0\)" % CAP
+    RF = r"await\(<impl .*?>::read_frame\(ok\(Option::as_mut\(self\.stream\)\)\)\)"
+    CAP = r"Capsule::with_frame\(ok\(%s\)\)" % RF
+    CL = r"CloseWebTransportSession::with_capsule\(ok\(%s\)\)" % CAP
     rows = [
-        {"name": "no stream->pending", "atoms": [r"^Option::as_mut\(&\*self\.stream\) is None$"], "leaf": r"^pending$"},
+        {"name": "no stream->pending", "atoms": [r"^Option::as_mut\(self\.stream\) fails$"], "leaf": r"^pending$"},
         {"name": "close capsule->ApplicationClosed(code,reason) + reset NoError",
-         "atoms": [r" is Data$", r"^%s is Some$" % CAP, r"^%s is Ok$" % CL],
-         "events": [r"::reset\(&Option::unwrap\(Option::take\(&\*self\.stream\)\),ErrorCode::to_code\(ErrorCode::NoError\)\)$"],
-         "leaf": r"^return DriverError::ApplicationClosed\(ApplicationClose::new\(CloseWebTransportSession::error_code\(&\(%s as Ok\)\.0\),Vec::into_boxed_slice\(<impl \[T\]>::to_vec\(&\*<impl str>::as_bytes\(&\*CloseWebTransportSession::reason\(&\(%s as Ok\)\.0\)\)\)\)\)\)$" % (CL, CL)},
-        {"name": "malformed capsule->Proto(code)", "atoms": [r"^%s is Err$" % CL], "leaf": r"^return DriverError::Proto\(\(%s as Err\)\.0\)$" % CL},
-        {"name": "unknown capsule->skip", "atoms": [r"^%s is None$" % CAP], "leaf": r"^continue$"},
+         "atoms": [r" is Data$", r"^%s ok$" % CAP, r"^%s ok$" % CL],
+         "events": [r"::reset\(Option::unwrap\(Option::take\(self\.stream\)\),ErrorCode::to_code\(ErrorCode::NoError\)\)$"],
+         "leaf": r"^return DriverError::ApplicationClosed\(ApplicationClose::new\(CloseWebTransportSession::error_code\(ok\(%s\)\),Vec::into_boxed_slice\(<impl \[T\]>::to_vec\(<impl str>::as_bytes\(CloseWebTransportSession::reason\(ok\(%s\)\)\)\)\)\)\)$" % (CL, CL)},
+        {"name": "malformed capsule->Proto(code)", "atoms": [r"^%s fails$" % CL], "leaf": r"^return DriverError::Proto\(err\(%s\)\)$" % CL},
+        {"name": "unknown capsule->skip", "atoms": [r"^%s fails$" % CAP], "leaf": r"^continue$"},
         {"name": "non-DATA frame->skip", "atoms": [r" isnot Data$"], "leaf": r"^continue$"},
-        {"name": "H3(code)->Proto(code)", "atoms": [r" is H3$"], "leaf": r"^return DriverError::Proto\(\(\(%s as Err\)\.0 as H3\)\.0\)$" % RF},
+        {"name": "H3(code)->Proto(code)", "atoms": [r" is H3$"], "leaf": r"^return DriverError::Proto\(\(err\(%s\) as H3\)\.0\)$" % RF},
         {"name": "clean FIN->ApplicationClosed(0,[])", "atoms": [r" is ImmediateFin$"],
          "leaf": r"^return DriverError::ApplicationClosed\(ApplicationClose::new\(VarInt::from_u32\(0\),\(Box::new\(\[\]\) as std::boxed::Box<\[u8\]>\)\)\)$"},
         {"name": "FIN inside frame->ClosedCriticalStream", "atoms": [r" is UnexpectedFin$"], "leaf": r"^return DriverError::Proto\(ErrorCode::ClosedCriticalStream\)$"},
@@ -1088,3 +1094,28 @@ def acceptor_branches(ctx, rid, idx=None):
                       "Worker::%s owns %s across an await inside the select loop: the accepted stream / datagram is dropped when another branch wins"
                       % (name, owned), s.where)
     return idx
+
+
+# ------------------------------------------------------------------ Capsule::with_frame
+
+def capsule_with_frame_table(ctx, rid):
+    """Capsule::with_frame reads exactly [varint type, varint len, len bytes]: a known capsule yields (kind, payload); an unknown type or a
+    short value yields None *after the same reads* (nothing of an unknown capsule is re-interpreted)"""
+    A = ctx.A
+    # Capsule::with_frame: [varint type, varint len, bytes len] over the frame payload
+    fn = A.fn("wtransport_proto::capsule::Capsule::with_frame")
+    PAY = r"Frame::payload\(frame\)"
+    GV = r"<&\[u8\] as BytesReader>::get_varint\(%s\)" % PAY
+    GB = r"<&\[u8\] as BytesReader>::get_bytes\(%s,\(VarInt::into_inner\(ok\(%s\)\) as usize\)\)" % (PAY, GV)
+    rows = [
+        {"name": "complete->Some(kind,payload)", "atoms": [r"^%s ok$" % GV, r"^CapsuleKind::parse\(ok\(%s\)\) ok$" % GV, r"^%s ok$" % GB],
+         "leaf": r"^return Option::Some\(Capsule\(ok\(CapsuleKind::parse\(ok\(%s\)\)\),ok\(%s\)\)\)$" % (GV, GB)},
+        {"name": "short/unknown->None", "atoms": [r" fails$"], "leaf": r"^return Option::None$"},
+    ]
+    ps = walk(fn)
+    match_table(ctx, rid, fn, ps, rows, "Capsule::with_frame")
+    full = [p for p in nonpanic(ps) if path_sig(p)[1].startswith("return Option::Some")]
+    seq = [e for p in full for e in event_strs(p) if e.startswith("<&[u8] as BytesReader>::")]
+    ctx.check(rid, "Capsule::with_frame wire sequence", len(full) == 1 and len(seq) == 3 and "get_varint" in seq[0] and "get_varint" in seq[1] and "get_bytes" in seq[2],
+              "Capsule::with_frame does not read [varint type, varint len, bytes len]: %s" % seq, where(fn))
+
